@@ -264,7 +264,8 @@ def run(ctx):
                 continue
             if ctx.quick and len(lay) == 3 and f and f[0][0] not in ("b.css", FAULT_POS[-1]):
                 continue   # quick tier: full layouts get faults between the files and in the nested hidden place only
-            for st in settings_list:
+            # fault pairs are explored under the default settings only (the second settings column is for single faults)
+            for st in (settings_list[:1] if len(f) == 2 else settings_list):
                 jobs.append((lay, f, st, [None]))
     n = 0
     for cnt, vs, _sk in ctx.pmap(chunk, jobs, chunksize=8):
